@@ -224,6 +224,47 @@ func wlWorkloads() map[string]*wlWorkload {
 			{"third-repo", true, post("repos", fmt.Sprintf(`{"alias":"w3","description":"d","root":%q}`, D))},
 		}}
 
+	// W11: two live repos whose version ids interleave, with instances of the same names in both, and two open sibling
+	// versions in the second one (label caches and id maps are keyed by version id and data uuid across repos)
+	ingestAt := func(u string, shift uint64) func(*wlState) vsrv.Resp {
+		return func(*wlState) vsrv.Resp {
+			v := newLMVol([3]int{0, 0, 0}, [3]int{c08NX, c08NY, c08NZ})
+			copy(v.v, c08InitialVolume(false))
+			for i := range v.v {
+				if v.v[i] != 0 {
+					v.v[i] += shift
+				}
+			}
+			return lmPostRaw(u, "lm", v, false)
+		}
+	}
+	mergeAt := func(u string, t, m uint64) func(s *wlState) vsrv.Resp {
+		return func(s *wlState) vsrv.Resp { r := lmMerge(u, "lm", t, m); s.id("mutid", wlJSONField(r, "MutationID")); return r }
+	}
+	E := wlUUID(6)
+	ws["tworepos"] = &wlWorkload{Name: "tworepos", Versions: []string{R, A, C, D, E}, Instances: map[string][]string{"lm": lmReads, "kv": {"keys", "key/k", "key/j"}},
+		Ops: []wlOp{newRepo, inst(R, "labelmap", "lm", `,"BlockSize":"16,16,16"`), inst(R, "keyvalue", "kv", ""),
+			{"second-repo", true, post("repos", fmt.Sprintf(`{"alias":"w2","description":"d2","root":%q}`, C))},
+			inst(C, "keyvalue", "kv", ""), inst(C, "labelmap", "lm", `,"BlockSize":"16,16,16"`),
+			{"ingest-1", false, ingestAt(R, 0)}, {"ingest-2", false, ingestAt(C, 0)},
+			{"put-1", true, post("node/"+R+"/kv/key/k", "first")}, {"put-2", true, post("node/"+C+"/kv/key/k", "second")},
+			{"merge-1", false, mergeAt(R, 1, 4)},
+			commit(C), newver(C, D), // version ids: R=1 C=2 D=3 A=4 E=5
+			commit(R), newver(R, A),
+			branch(C, E, "side"),
+			{"merge-2-child", false, mergeAt(D, 2, 3)},
+			{"merge-1-child", false, mergeAt(A, 2, 5)},
+			{"cleave-1-child", false, func(s *wlState) vsrv.Resp {
+				l, r := lmCleave(A, "lm", 1, 4)
+				s.id("label", l)
+				return r
+			}},
+			{"merge-2-side", false, mergeAt(E, 3, 5)},
+			{"put-child-1", true, post("node/"+A+"/kv/key/j", "a")}, {"del-child-2", true, del("node/" + D + "/kv/key/k")},
+			{"put-side-2", true, post("node/"+E+"/kv/key/j", "e")},
+			{"merge-2-child-again", false, mergeAt(D, 2, 1)},
+		}}
+
 	// W8: ROI (extents live in the instance properties, spans in the store)
 	ws["roi"] = &wlWorkload{Name: "roi", Rewrites: "r", Versions: []string{R, A}, Instances: map[string][]string{"r": {"roi", "partition?batchsize=2", "mask/0_1_2/24_16_24/-8_0_-8", "ptquery-probe"}},
 		Ops: []wlOp{newRepo, inst(R, "roi", "r", `,"BlockSize":"8,8,8"`),
